@@ -699,9 +699,10 @@ impl Update {
         } else {
             Vec::new()
         };
-        // Update the rows.
-        for value_refs in rows.iter_mut() {
-            let should_update = match self.condition {
+        // Decide which rows to update before changing anything.
+        let should_update: Vec<bool> = rows
+            .iter()
+            .map(|value_refs| match self.condition {
                 Some(ref expr) => {
                     let values: Vec<Value> = value_refs
                         .iter()
@@ -711,16 +712,71 @@ impl Update {
                     expr.eval(&row).to_bool()
                 }
                 None => true,
-            };
-            if should_update {
-                for (column_name, value) in self.updates.iter() {
-                    let index =
-                        table.index_for_column_name(column_name).unwrap();
-                    let value_ref = &mut value_refs[index];
+            })
+            .collect();
+        let updates: Vec<(usize, Value)> = self
+            .updates
+            .into_iter()
+            .map(|(column_name, value)| {
+                let index =
+                    table.index_for_column_name(&column_name).unwrap();
+                (index, value.into_stored())
+            })
+            .collect();
+        // If primary key columns are being assigned, make sure that the keys
+        // will still be unique.
+        let key_indices = table.primary_key_indices();
+        let changes_keys =
+            updates.iter().any(|(index, _)| key_indices.contains(index));
+        if changes_keys {
+            let mut keys_set = HashSet::<Vec<Value>>::new();
+            for (value_refs, &matched) in rows.iter().zip(should_update.iter())
+            {
+                let keys: Vec<Value> = key_indices
+                    .iter()
+                    .map(|&index| {
+                        let assigned = if matched {
+                            updates.iter().rev().find(|upd| upd.0 == index)
+                        } else {
+                            None
+                        };
+                        match assigned {
+                            Some((_, value)) => value.clone(),
+                            None => value_refs[index].to_value(string_pool),
+                        }
+                    })
+                    .collect();
+                if keys_set.contains(&keys) {
+                    already_exists!(
+                        "Update would give multiple rows of table {:?} the \
+                         key {:?}",
+                        self.table_name,
+                        keys
+                    );
+                }
+                keys_set.insert(keys);
+            }
+        }
+        // Update the rows.
+        for (value_refs, &matched) in
+            rows.iter_mut().zip(should_update.iter())
+        {
+            if matched {
+                for (index, value) in updates.iter() {
+                    let value_ref = &mut value_refs[*index];
                     value_ref.remove(string_pool);
                     *value_ref = ValueRef::create(value.clone(), string_pool);
                 }
             }
+        }
+        // Keep the rows in primary key order.
+        if changes_keys {
+            rows.sort_by_cached_key(|value_refs| {
+                key_indices
+                    .iter()
+                    .map(|&index| value_refs[index].to_value(string_pool))
+                    .collect::<Vec<Value>>()
+            });
         }
         // Write the table back out to the file.
         let stream = comp.create_stream(&stream_name)?;
